@@ -223,6 +223,15 @@ class Circuit:
                 # normal simtask exit is not possible
                 msg = f"The simulation task failed with error: {self._simtask.exception()}"
             raise EdzedInvalidState(msg)
+        if self._error is not None:
+            # The simulation has failed or is being stopped (e.g. the very first
+            # evaluation of the circuit failed right after the initialization),
+            # but the cleanup is still in progress.
+            if isinstance(self._error, asyncio.CancelledError):
+                msg = "The simulation task is being stopped"
+            else:
+                msg = f"The simulation task failed with error: {self._error}"
+            raise EdzedInvalidState(msg)
 
     def check_not_finalized(self) -> None:
         """Raise an error if the circuit has been finalized."""
